@@ -96,6 +96,10 @@ def sweep_catalogue():
     C.append({"op": "Partial", "idxs": {"slice": [2, 5, None]}, "shape": (7,),
               "child": {"op": "MAF", "dim": 3, "cond_dim": 2, "transformer": {"op": "Affine", "shape": ()}, "nn_width": 4, "nn_depth": 1}})
     C.append({"op": "Partial", "idxs": {"ints": [6, 1, 3]}, "shape": (7,), "child": {"op": "TriangularAffine", "dim": 3, "lower": True}})
+    C.append({"op": "Partial", "idxs": {"slice": [0, 3, None]}, "shape": (7,), "child": {"op": "Exp", "shape": (3,)}})
+    C.append({"op": "Partial", "idxs": {"ints": [1, 4]}, "shape": (5,), "child": {"op": "Tanh", "shape": (2,)}})
+    C.append({"op": "Chain", "args": [{"op": "Partial", "idxs": {"int": 0}, "shape": (3,), "child": {"op": "Exp", "shape": ()}},
+                                      {"op": "Partial", "idxs": {"int": 0}, "shape": (3,), "child": {"op": "Invert", "child": {"op": "Exp", "shape": ()}}}]})
     # nested chains for merge / indexing
     a3 = aff((3,))
     C.append({"op": "Chain", "args": [a3, {"op": "Chain", "args": [{"op": "Permute", "shape": (3,)}, {"op": "Chain", "args": [{"op": "LeakyTanh", "max_val": 1, "shape": (3,)}, a3]},
@@ -361,6 +365,7 @@ def run_shard(shard):
             continue
         rec.count("declared_shapes_checked")
         inv_ok, fwd_ok = S.invertible(sp), S.forward_ok(sp)
+        numeric_tree = "BNAF" in S.ops_in(sp)
         dtag, ctag = S.tags(sp) if sp.get("mode") != "perleaf" else (np.zeros(exp_shape, int), np.zeros(exp_shape, int))
         interp = Interp()
         for mode in modes:
@@ -405,9 +410,15 @@ def run_shard(shard):
                 sens = np.abs((yr2 - yr).reshape(len(pts), -1)).max(1) / dx
                 sens = np.where(np.isfinite(sens), sens, np.inf)
                 amag = np.abs(pts.reshape(len(pts), -1)).max(1)
-                tol = 1e3 * eps * (1 + sens) * (1 + amag) + 1e-10 * (1 + np.abs(yr.reshape(len(pts), -1)).max(1))
+                ymag = np.abs(np.where(np.isfinite(yr), yr, 0).reshape(len(pts), -1)).max(1)
+                # both sides run the same child code: errors scale with the output magnitude and with the input rounding amplified
+                # by the map's sensitivity - not with |x| itself (an implementation that adds and subtracts x, e.g. writing y as
+                # x + (y - x), loses small outputs next to large inputs and must be visible)
+                tol = 1e3 * eps * (ymag + sens * amag) + 1e-30
+                if numeric_tree:
+                    tol = tol + 1e-5 * (1 + sens) + 1e-6
                 err = np.abs((y - yr).reshape(len(pts), -1)).max(1)
-                gate = fin & (tol < 1e-4 * (1 + amag))
+                gate = fin & (tol < 1e-4 * (1 + amag + ymag))
                 bad = gate & (err > tol)
                 rec.maxi("value_err_over_tol", np.max(np.where(gate & ~bad, err / tol, 0)) if len(pts) else 0)
                 rec.count("gated_ill_conditioned_or_nonfinite", (~gate).sum())
@@ -515,7 +526,8 @@ def _check_merge_transforms(rec, shard, rng):
         d = 3
         b1 = B.Affine(jr.normal(ks[0], (d,)), jnp.exp(jr.normal(ks[1], (d,)) * 0.5))
         b2 = B.Chain([B.Permute(jr.permutation(ks[2], jnp.arange(d))), B.LeakyTanh(1.0, (d,))])
-        b3 = B.TriangularAffine(jr.normal(ks[3], (d,)), jnp.eye(d) + 0.3 * jr.normal(ks[4], (d, d)))
+        off = 0.3 * jr.normal(ks[4], (d, d))
+        b3 = B.TriangularAffine(jr.normal(ks[3], (d,)), off - jnp.diag(jnp.diag(off)) + jnp.diag(jnp.exp(jnp.diag(off))))  # diagonal must be positive
         base = Normal(jnp.arange(d, dtype=float), jnp.full((d,), 1.5)) if k else StandardNormal((d,))
         nested = Transformed(Transformed(Transformed(base, b1), b2), b3)
         merged = nested.merge_transforms()
